@@ -7,7 +7,7 @@ from be_check import run_be, replay_be
 
 PID = 'C03'
 MANIFEST = dict(
-    text='Machine-checked (Coq) conservation invariant of the backend micro-step model for every interleaving of log calls, thread exits and backend steps, every capacity, transit-buffer size and soft/hard limit: per thread, committed = processed ++ buffered ++ queued (nothing lost, duplicated or reordered by queue reads, buffer growth, limit exits or context removal), and the sink loop writes a statement exactly once to each sink of its logger that passes its own filter (C03_conservation, C03_sink_loop, C03_sink_gets_line_iff). The model is run against the real backend (ManualBackendWorker::poll_one with yield hooks, real frontend threads, virtual clock) on generated schedules and the property itself is evaluated on the implementation\'s sink calls. Not yet proved here: the bounded-liveness clause (drain within K polls) and unbounded queues.',
+    text='Machine-checked (Coq) conservation invariant of the backend micro-step model for every interleaving of log calls, thread exits and backend steps, every capacity, transit-buffer size and soft/hard limit: per thread, committed = processed ++ buffered ++ queued (nothing lost, duplicated or reordered by queue reads, buffer growth, limit exits or context removal), and the sink loop writes a statement exactly once to each sink of its logger that passes its own filter (C03_conservation, C03_sink_loop, C03_sink_gets_line_iff). The model is run against the real backend (ManualBackendWorker::poll_one with yield hooks, real frontend threads, virtual clock) on generated schedules and the property itself is evaluated on the implementation\'s sink calls. Not yet proved here: the bounded-liveness clause (drain within K polls) and unbounded queues. UnboundedBlocking frontends (the default queue type; initial node 256/1024 bytes so that queues grow) run through the same driver and are judged by the property monitor on the implementation only: M-BE models one bounded queue per thread, the node switching of the unbounded queue is proved and tied in C02.',
     design='5 C03', technique='Coq invariant proof over a backend micro-step machine + deterministic-driver differential correspondence')
 
 
@@ -18,7 +18,7 @@ def gen(rng, facts):
     nl = rng.randint(1, 3)
     loggers = [(rng.choice([0, 0, 4]), rng.sample(range(ns), rng.randint(1, ns))) for _ in range(nl)]
     soft = rng.choice([1, 2, 4]); hard = rng.choice([h for h in (2, 4, 8) if h >= soft])
-    c = Case(dropping=0, capk=rng.choice([8, 8, 10]), tinit=rng.choice([2, 4]), soft=soft, hard=hard,
+    c = Case(dropping=rng.choice([0, 0, 0, 2]), capk=rng.choice([8, 8, 10]), tinit=rng.choice([2, 4]), soft=soft, hard=hard,
              grace=rng.choice([0, 0, 1000]), loggers=loggers, sinks=sinks, facts=facts)
     C = 1 << c.capk
     nt = rng.randint(1, 5)
